@@ -120,7 +120,8 @@ def fam_link():
 URLS = ["http://example.org/a?b=1&c=2", "https://e.com", "/rel/path", "#frag", "javascript:alert(1)", "JaVaScRiPt:alert(1)",
         " javascript:alert(1)", "java\tscript:alert(1)", "data:image/png;base64,iVBORw0KGgo=", "data:text/html,<script>alert(1)</script>",
         "mailto:a@b.c", "//host/p", "http://a b/", "%zz", "", "ftp://f/x", "tel:+1", "http:\\\\e.com\\p", "HTTP://EXAMPLE.ORG/Up",
-        "http://u:p@example.org/", "\x01javascript:alert(1)", "x:y", "?q=1", "http://example.com/\u00e9"]
+        "http://u:p@example.org/", "\x01javascript:alert(1)", "x:y", "?q=1", "http://example.com/\u00e9",
+        " http://example.org/lead", "https://e.com/trail\n", "data:image/png;base64,iVBO\nRw0KGgo="]
 
 def fam_url():
     """C03: every listed URL position x the URL catalogue x scheme allowlists / custom checks / relative / rewriter."""
@@ -190,12 +191,13 @@ def fam_allow():
     # custom-x is also named explicitly (shadows the patterns); custom-b-x is reached through both patterns only
     els = ["span", "custom-x", "custom-y", "custom-b-x", "b", "a", "blink", "bx-x"]
     alpha = alpha + av("rev", ["1"]) + av("dir", ["rtl", "up"])
-    return dict(name="allow", recipes=recipes, tokens=[], attrs={e: alpha for e in els})
+    return dict(name="allow", pairsweep=True, recipes=recipes, tokens=[], attrs={e: alpha for e in els})
 
 STYLES = ["color: red", "color: red; background: url(javascript:alert(1))", "COLOR: RED; font-size: 12px", "text-align: center;;",
           "width: expression(alert(1))", "color: \\72 ed", "-webkit-transition: none", "color: red !important",
           "background-image: url('http://e.com/a;b.png')", "/* c */ color: blue", "color", "color: r\\65 d",
-          "font-family: \\110000 x", "color: re\\20 d", "font-size: 12px; color: blue; width: 1px", "-moz--webkit-color: red", ""]
+          "font-family: \\110000 x", "color: re\\20 d", "font-size: 12px; color: blue; width: 1px", "-moz--webkit-color: red", "",
+          "color: r\\65D", "color: b\\6Cue", "width: 1px", "COLOR: \\52 ED"]
 
 def fam_style():
     """C10: style rules at the three scopes with the four matcher kinds."""
@@ -211,9 +213,12 @@ def fam_style():
                 AS(["color"], "pat", pat="^sp", enum="e:green")],
         base + [AS(["nosuchprop", "color"], "els", els=["span"])],
         base,
+        # two overlapping element patterns carrying different properties
+        [call("NewPolicy"), AA(["style", "class"], pat="^custom-"), AA(["style"], pat="-x$"),
+         AS(["color"], "pat", pat="^custom-", enum="e:red|blue"), AS(["width"], "pat", pat="-x$", handler=noparen)],
     ]
     alpha = av("style", STYLES) + av("class", ["k"])
-    return dict(name="style", recipes=recipes, tokens=[], attrs={e: alpha for e in ["span", "p", "custom-x", "div"]})
+    return dict(name="style", pairsweep=True, recipes=recipes, tokens=[], attrs={e: alpha for e in ["span", "p", "custom-x", "div", "custom-b-x", "custom-y", "bx-x"]})
 
 def fam_conf():
     """C07 / C20: documents mostly inside the policy's own vocabulary (plus a few tokens outside it)."""
